@@ -243,6 +243,31 @@ def case_setup_loop(seed, idx, res):
                                       index=idx, mode="setup-loop", loop=L, exitcode=r.exitcode, warnings=ws[:3]))
 
 
+def case_setup_stuck(seed, idx, res):
+    """setUp() gets stuck (unsupported opcode) inside a nested call, or at top level: the state it has built so far is not the state after
+    setUp.  A test that only passes on the truncated state must not be reported as a clean PASS."""
+    rng = random.Random(f"c10-{seed}-setupstuck-{idx}")
+    nested = idx % 2 == 0
+    helper = A.Fn("helper", [], [bytes([0xEE])])
+    if nested:
+        body = A.call_cheat(A.TEST, helper.sig, []) + ["POP", 5, 1, "SSTORE", "STOP"]
+    else:
+        body = [bytes([0xEE]), 5, 1, "SSTORE", "STOP"]
+    setup = A.Fn("setUp", [], body)
+    test = A.Fn("check_slot", [], [1, "SLOAD", 5, "EQ", "@bad", "JUMPI", "STOP", ":bad"] + A.panic(1))  # fails on the real post-setUp state
+    spec = A.ContractSpec(f"K{idx}", [setup, test, helper], filename=f"K{idx}.sol")
+    out = A.run(A.make_ctx(spec, funsigs=[test.sig]))
+    res["counters"]["evaluations"] += 1
+    res["counters"]["setup_stuck_cases"] += 1
+    res["counters"]["unsupported_feature_tests"] += 1
+    ws = out.warnings()
+    clean_pass = bool(out.results) and out.results[0].exitcode == 0 and not any("nsupported" in w or "internal" in w.lower() or "setUp" in w for w in ws)
+    res["distinct"].append(f"setup-stuck:{idx}")
+    if clean_pass:
+        res["violations"].append(dict(what="clean PASS although setUp() got stuck on an unsupported instruction: the test ran on a truncated setup state without any report",
+                                      key="silent-cut:setup-stuck" + ("-nested" if nested else ""), index=idx, mode="setup-stuck", nested=nested, warnings=ws[:3]))
+
+
 def worker(task):
     _imports()
     kind, lo, hi, seed = task
@@ -254,6 +279,8 @@ def worker(task):
             case_invariant(seed, idx, res)
         elif kind == "setup":
             case_setup_loop(seed, idx, res)
+        elif kind == "setupstuck":
+            case_setup_stuck(seed, idx, res)
         else:
             case_two_contracts(seed, idx, res)
     return res
@@ -269,7 +296,7 @@ def main():
     if run.replay:
         w = json.load(open(run.replay))["witness"]
         res = new_result()
-        {"regular": case_regular, "invariant": case_invariant, "setup-loop": case_setup_loop}.get(w.get("mode"), case_two_contracts)(run.seed, w["index"], res)
+        {"regular": case_regular, "invariant": case_invariant, "setup-loop": case_setup_loop, "setup-stuck": case_setup_stuck}.get(w.get("mode"), case_two_contracts)(run.seed, w["index"], res)
         run.merge(res)
         run.finish()
     tasks = []
@@ -279,6 +306,7 @@ def main():
     tasks += [("inv", lo, min(m, lo + 2), run.seed) for lo in range(0, m, 2)]
     tasks += [("two", i, i + 1, run.seed) for i in range(run.n(4, 40))]
     tasks += [("setup", i, i + 2, run.seed) for i in range(0, run.n(8, 100), 2)]
+    tasks += [("setupstuck", i, i + 2, run.seed) for i in range(0, run.n(4, 20), 2)]
     run_pool(run, worker, tasks, soft_timeout=900)
     run.require("tests", 150)
     run.require("cut_events_possible", 30)
